@@ -211,6 +211,71 @@ func asType(src *image.NRGBA, typ string) (image.Image, *image.NRGBA) {
 	return src, src
 }
 
+// shiftBounds returns the same picture as a sub-image, at (3,2), of a larger image of the same concrete type whose
+// other pixels hold garbage.
+func shiftBounds(rng *rand.Rand, img image.Image) image.Image {
+	b := img.Bounds()
+	pr := image.Rect(0, 0, b.Dx()+5, b.Dy()+4)
+	win := image.Rect(3, 2, 3+b.Dx(), 2+b.Dy())
+	fill := func(set func(x, y int)) {
+		for y := 0; y < pr.Dy(); y++ {
+			for x := 0; x < pr.Dx(); x++ {
+				set(x, y)
+			}
+		}
+	}
+	switch v := img.(type) {
+	case *image.NRGBA:
+		p := image.NewNRGBA(pr)
+		rng.Read(p.Pix)
+		draw.Draw(p, win, v, b.Min, draw.Src)
+		return p.SubImage(win)
+	case *image.RGBA:
+		p := image.NewRGBA(pr)
+		fill(func(x, y int) {
+			a := rng.Intn(256)
+			p.SetRGBA(x, y, color.RGBA{uint8(rng.Intn(a + 1)), uint8(rng.Intn(a + 1)), uint8(rng.Intn(a + 1)), uint8(a)})
+		})
+		draw.Draw(p, win, v, b.Min, draw.Src)
+		return p.SubImage(win)
+	case *image.Gray:
+		p := image.NewGray(pr)
+		rng.Read(p.Pix)
+		draw.Draw(p, win, v, b.Min, draw.Src)
+		return p.SubImage(win)
+	case *image.Paletted:
+		p := image.NewPaletted(pr, v.Palette)
+		fill(func(x, y int) { p.SetColorIndex(x, y, uint8(rng.Intn(len(v.Palette)))) })
+		for y := 0; y < b.Dy(); y++ {
+			for x := 0; x < b.Dx(); x++ {
+				p.SetColorIndex(3+x, 2+y, v.ColorIndexAt(b.Min.X+x, b.Min.Y+y))
+			}
+		}
+		return p.SubImage(win)
+	case genericImage:
+		return genericImage{shiftBounds(rng, v.im).(*image.NRGBA)}
+	}
+	return img
+}
+
+// farMatchPicture is a 1024x1040 grey-noise picture, larger than the LZ77 window (2^20 - 120 pixels at Quality > 75,
+// width << 8 / << 6 / << 4 below), whose tail repeats 150-pixel runs that lie exactly at, just inside and just outside
+// the window limit of each quality class.
+func farMatchPicture(rng *rand.Rand) *image.NRGBA {
+	const fw, fh = 1024, 1040
+	far := image.NewNRGBA(image.Rect(0, 0, fw, fh))
+	for i := 0; i < fw*fh; i++ {
+		v := uint8(rng.Intn(256))
+		far.Pix[4*i], far.Pix[4*i+1], far.Pix[4*i+2], far.Pix[4*i+3] = v, v, v, 255
+	}
+	pos := 1<<20 + 200
+	for _, d := range []int{1<<20 - 121, 1<<20 - 120, 1<<20 - 119, 1<<20 - 60, 1<<20 - 1, 1 << 20, 1024 << 8, 1024<<8 - 1, 1024<<8 + 1, 1024 << 6, 1024<<6 + 1, 1024 << 4, 1024<<4 - 1} {
+		copy(far.Pix[4*pos:4*(pos+150)], far.Pix[4*(pos-d):4*(pos-d+150)])
+		pos += 400
+	}
+	return far
+}
+
 var c01Qualities = []int{0, 1, 9, 10, 24, 25, 26, 49, 50, 51, 74, 75, 76, 89, 90, 99, 100}
 
 type c01Case struct {
@@ -279,11 +344,16 @@ func checkC01(args []string) {
 	for i, c := range cases {
 		src := buildPicture(rng, c.pic)
 		in, want := asType(src, c.pic.typ)
+		shifted := ""
+		if i%3 == 1 {
+			// the same pixels as a window of a larger parent full of other content: Bounds().Min is (3,2), not (0,0)
+			in, shifted = shiftBounds(rng, in), " bounds@(3,2)"
+		}
 		o := c.o
 		if c.meta {
 			o.ICC, o.XMP = []byte{1, 2, 3}, []byte("x")
 		}
-		name := fmt.Sprintf("%v m%d q%v exact=%v meta=%v", c.pic, o.Method, o.Quality, o.Exact, c.meta)
+		name := fmt.Sprintf("%v%s m%d q%v exact=%v meta=%v", c.pic, shifted, o.Method, o.Quality, o.Exact, c.meta)
 		out, err, pan := safeEncode(in, &o)
 		if pan != nil || err != nil {
 			run.Violate("encode-fails|"+c.pic.typ, fmt.Sprintf("%s: err=%v panic=%v", name, err, pan), name)
@@ -375,20 +445,81 @@ func checkC01(args []string) {
 			}
 		}
 	}
+	// scan-order run pictures: flat runs shorter than, at and longer than the 4095-pixel copy length cap, each followed
+	// by a distinctive tail that already occurred after a run of another length, so that near the end of a long run the
+	// best match changes from "the pixel before" to a longer one at another distance (all cost-model qualities)
+	{
+		n := run.Pick(36, 400)
+		for i := 0; i < n; i++ {
+			w := []int{100, 64, 37, 128, 255}[rng.Intn(5)]
+			ntails := 1 + rng.Intn(3)
+			tails := make([][]uint8, ntails)
+			next := uint8(10)
+			for j := range tails {
+				for k, tl := 0, 8+rng.Intn(53); k < tl; k++ {
+					tails[j] = append(tails[j], next)
+					next++
+				}
+			}
+			var seq []uint8
+			runLen := func(long bool) int {
+				if !long {
+					return 100 + rng.Intn(3000)
+				}
+				return []int{4090 + rng.Intn(12), 4096 + rng.Intn(1500), 5400 + rng.Intn(300), 8185 + rng.Intn(12), 9000 + rng.Intn(4000)}[rng.Intn(5)]
+			}
+			seq = append(seq, 1)
+			for b, nb := 0, 2+rng.Intn(3); b < nb; b++ {
+				flat := uint8(0)
+				if rng.Intn(4) == 0 {
+					flat = 8
+				}
+				for k, l := 0, runLen(b > 0 && rng.Intn(4) != 0); k < l; k++ {
+					seq = append(seq, flat)
+				}
+				seq = append(seq, tails[rng.Intn(ntails)]...)
+				for k, l := 0, rng.Intn(9); k < l; k++ {
+					seq = append(seq, 2)
+				}
+				seq = append(seq, uint8(3+rng.Intn(5)))
+			}
+			h := (len(seq) + w - 1) / w
+			img := image.NewNRGBA(image.Rect(0, 0, w, h))
+			trueColour := rng.Intn(4) == 0
+			for k := 0; k < w*h; k++ {
+				v := uint8(9)
+				if k < len(seq) {
+					v = seq[k]
+				}
+				img.Pix[4*k], img.Pix[4*k+1], img.Pix[4*k+2], img.Pix[4*k+3] = v*3, v*5, 255-v, 255
+				if trueColour && k >= w*h-300 {
+					// more than 256 colours at the end: no palette, the ARGB pipeline sees the same runs
+					img.Pix[4*k], img.Pix[4*k+1] = uint8(k), uint8(k>>1)
+				}
+			}
+			o := webp.EncoderOptions{Lossless: true, Quality: []float32{90, 100, 75, 95, 50, 25}[rng.Intn(6)], Method: []int{4, 4, 6, 3, 5, 2}[rng.Intn(6)]}
+			name := fmt.Sprintf("%dx%d scan-order runs around the 4095-pixel length cap with repeated tails (%d pixels, true colour %v), lossless q%v m%d #%d", w, h, len(seq), trueColour, o.Quality, o.Method, i)
+			out, err, pan := safeEncode(img, &o)
+			run.Eval(name)
+			if pan != nil || err != nil {
+				run.Violate("encode-fails|long-runs", fmt.Sprintf("%s: err=%v panic=%v", name, err, pan), name)
+				continue
+			}
+			dec, derr := guardedDecode(out)
+			if derr != nil {
+				run.Violate("decode-fails|long-runs", name+": "+derr.Error(), name)
+				continue
+			}
+			if got, ok := dec.(*image.NRGBA); !ok || got.Bounds() != img.Bounds() || !bytes.Equal(got.Pix, img.Pix) {
+				run.Violate(fmt.Sprintf("pixels|long-runs|q>=90:%v", o.Quality >= 90), name+": the round trip does not reproduce the picture", name)
+			}
+		}
+	}
 	// pictures larger than the LZ77 window (2^20 - 120 pixels at Quality > 75, width << 8 / << 6 / << 4 below) whose
 	// tail repeats runs that lie exactly at, just inside and just outside the window limit of each quality class
 	{
 		const fw, fh = 1024, 1040
-		far := image.NewNRGBA(image.Rect(0, 0, fw, fh))
-		for i := 0; i < fw*fh; i++ {
-			v := uint8(rng.Intn(256))
-			far.Pix[4*i], far.Pix[4*i+1], far.Pix[4*i+2], far.Pix[4*i+3] = v, v, v, 255
-		}
-		pos := 1<<20 + 200
-		for _, d := range []int{1<<20 - 121, 1<<20 - 120, 1<<20 - 119, 1<<20 - 60, 1<<20 - 1, 1 << 20, 1024 << 8, 1024<<8 - 1, 1024<<8 + 1, 1024 << 6, 1024<<6 + 1, 1024 << 4, 1024<<4 - 1} {
-			copy(far.Pix[4*pos:4*(pos+150)], far.Pix[4*(pos-d):4*(pos-d+150)])
-			pos += 400
-		}
+		far := farMatchPicture(rng)
 		quals := []float32{80}
 		if run.Thorough() {
 			quals = []float32{80, 60, 30, 10, 100}
